@@ -1,5 +1,7 @@
 import J5V.Codec.ScalarProofs
 import J5V.Codec.RoundtripProofs
+import J5V.Codec.EncTreeProofs
+import J5V.Codec.ProgressProofs
 import J5V.Generated.CodecFacts
 /-!
 # C01 — JSON codec round-trip: `decode (encode m) = m`
@@ -64,16 +66,42 @@ encoder writes, the decoder maps back to exactly the original message. Covers ob
 oneofs (`!type` framing), enums, arrays and maps of scalars / enums / objects / oneofs, every
 scalar kind, recursion through named roots, presence (unset members stay unset).
 
-Missing for the full statement: (a) flattened objects, exposed oneofs, `Any`, anonymous proto
-oneofs; (b) `readDoc (render t) = t` for encoder trees (the reader inverts the renderer —
-the string part is `C08_escape_valid`, numbers `scanNumber_fmtInt`); (c) that encoding succeeds
-(no error / fuel exhaustion) on every representable message. -/
+Missing for the full statement: flattened objects, exposed oneofs, `Any`, anonymous proto
+oneofs. (The reader inverting the renderer is `C01_roundtrip_bytes_partial`, success of the
+encoder `C01_roundtrip_partial`, both below.) -/
 theorem C01_roundtrip_tree_partial (c : Cfg) (hs : c.env.simple = true) (L : OracleLaws c.O)
     (root : String) (m : Fields) (t : PTree)
     (hok : valOk c.env c.O (.object root) (.msg m) = true ∨
       valOk c.env c.O (.oneof root) (.msg m) = true)
     (henc : encodeTree c.env c.O root (.msg m) = .ok t) : decRootTree c root t = .ok m :=
   roundtrip_tree c hs L root m t hok henc
+
+/-- **Byte level (`_partial`)**: the same statement on the bytes `Codec.ProtoToJSON` returns and
+`Codec.JSONToProto` reads — through the string escaper / unquoter, the number scanner, the
+`Token()` state machine and the tree builder (`readDoc_render`). Same hypotheses. -/
+theorem C01_roundtrip_bytes_partial (c : Cfg) (hs : c.env.simple = true) (L : OracleLaws c.O)
+    (root : String) (m : Fields) (bs : Bytes)
+    (hok : valOk c.env c.O (.object root) (.msg m) = true ∨
+      valOk c.env c.O (.oneof root) (.msg m) = true)
+    (henc : encodeBytes c.env c.O root (.msg m) = .ok bs) : decodeBytes c root bs = .ok m :=
+  roundtrip_bytes c hs L root m bs hok henc
+
+/-- **C01 for simple environments (`_partial` only in the class of schemas)**: encoding any
+representable message succeeds, and decoding the bytes into a fresh message of the same type
+yields exactly the original message. Unbounded in message size, nesting depth, number of
+properties, string contents and integer values.
+
+Missing for `C01_roundtrip_full`: schemas with flattened objects, exposed oneofs, `Any` fields or
+anonymous proto oneofs inside objects (all modelled and validated against Go by the
+correspondence, not yet covered by this proof), and decimals that are not in `decimal.String()`
+normal form (they round-trip up to numeric equality: `C01_scalar_roundtrip`). -/
+theorem C01_roundtrip_partial (c : Cfg) (hs : c.env.simple = true) (L : OracleLaws c.O)
+    (root : String) (m : Fields)
+    (hok : valOk c.env c.O (.object root) (.msg m) = true ∨
+      valOk c.env c.O (.oneof root) (.msg m) = true) :
+    ∃ bs, encodeBytes c.env c.O root (.msg m) = .ok bs ∧ decodeBytes c root bs = .ok m := by
+  obtain ⟨bs, hbs⟩ := encode_ok c.env c.O hs L root m hok
+  exact ⟨bs, hbs, roundtrip_bytes c hs L root m bs hok hbs⟩
 
 /-! ## Non-vacuity -/
 
